@@ -7,3 +7,6 @@ func Point(string, interface{}) {}
 
 // Yield is a no-op unless built with -tags verif.
 func Yield() {}
+
+// YieldLock is a no-op unless built with -tags verif.
+func YieldLock() {}
